@@ -18,7 +18,13 @@ import (
 
 type cfg struct {
 	cart, romCode uint8
+	// logo: the image carries the boot logo and a plausible header at the start of every
+	// 256 KiB block, as multi-game cartridges do (ROM contents must play no part in banking)
+	logo bool
 }
+
+var bootLogo = []byte{0xce, 0xed, 0x66, 0x66, 0xcc, 0x0d, 0x00, 0x0b, 0x03, 0x73, 0x00, 0x83, 0x00, 0x0c, 0x00, 0x0d, 0x00, 0x08, 0x11, 0x1f, 0x88, 0x89, 0x00, 0x0e,
+	0xdc, 0xcc, 0x6e, 0xe6, 0xdd, 0xdd, 0xd9, 0x99, 0xbb, 0xbb, 0x67, 0x63, 0x6e, 0x0e, 0xec, 0xcc, 0xdd, 0xdc, 0x99, 0x9f, 0xbb, 0xb9, 0x33, 0x3e}
 
 var probeOffs = []int{0x0000, 0x0001, 0x0150, 0x0151, 0x2000, 0x2001, 0x3ffe, 0x3fff, 0x0007, 0x1234, 0x2fff, 0x3abc}
 
@@ -29,6 +35,7 @@ type world struct {
 	m       *rig.Machine
 	ref     *ref.MBC
 	hist    []string
+	checks  int
 }
 
 var imgCache = map[uint32][]byte{}
@@ -36,12 +43,23 @@ var imgCache = map[uint32][]byte{}
 // image returns the signature image for a configuration. The emulator copies the pages out
 // of it (or only reads it, for ROM-only), so one slice per configuration is shared by all
 // machines of that configuration.
-func image(cart, romCode, ramCode uint8) []byte {
+func image(cart, romCode, ramCode uint8, logo ...bool) []byte {
 	key := uint32(cart)<<16 | uint32(romCode)<<8 | uint32(ramCode)
+	withLogo := len(logo) > 0 && logo[0]
+	if withLogo {
+		key |= 1 << 24
+	}
 	if img, ok := imgCache[key]; ok {
 		return img
 	}
 	img := rig.SignatureROM(cart, romCode, ramCode)
+	if withLogo {
+		for base := 0; base < len(img); base += 0x40000 {
+			copy(img[base+0x104:], bootLogo)
+			copy(img[base+0x134:], []byte("GAME"))
+			img[base+0x147], img[base+0x148], img[base+0x149] = cart, romCode, ramCode
+		}
+	}
 	imgCache = map[uint32][]byte{key: img} // keep only one image in memory
 	return img
 }
@@ -71,7 +89,7 @@ func (w *world) toReset() {
 }
 
 func newWorld(c *rig.Ctx, cf cfg, ramCode uint8) *world {
-	m, err := rig.New(image(cf.cart, cf.romCode, ramCode), rig.Opts{})
+	m, err := rig.New(image(cf.cart, cf.romCode, ramCode, cf.logo), rig.Opts{})
 	if err != nil {
 		c.Violate(fmt.Sprintf("cart%02X-rom%d-load", cf.cart, cf.romCode), fmt.Sprintf("cartridge type %02X with ROM size code %d and RAM size code %d does not load: %v", cf.cart, cf.romCode, ramCode, err), nil)
 		return nil
@@ -80,6 +98,9 @@ func newWorld(c *rig.Ctx, cf cfg, ramCode uint8) *world {
 }
 
 func (w *world) expectByte(page, off int) byte {
+	if w.cf.logo {
+		return image(w.cf.cart, w.cf.romCode, w.ramCode, true)[page*0x4000+off]
+	}
 	return rig.ROMByte(page, off, w.cf.cart, w.cf.romCode, w.ramCode)
 }
 
@@ -100,6 +121,18 @@ func kindName(k ref.MBCKind) string {
 
 // check reads both windows and compares with the page the reference selects.
 func (w *world) check(what string) bool {
+	// cartridge RAM accesses between a control write and the next ROM access must not matter
+	w.checks++
+	switch w.checks % 4 {
+	case 1:
+		_ = w.m.Mem.Read(0xa000 + uint16(w.checks*37)&0x1fff)
+		w.c.Count("ram_accesses_before_rom_reads", 1)
+	case 3:
+		a := 0xa000 + uint16(w.checks*53)&0x1fff
+		w.m.Mem.Write(a, uint8(w.checks))
+		w.ref.Write(a, uint8(w.checks))
+		w.c.Count("ram_accesses_before_rom_reads", 1)
+	}
 	lo, hi := w.ref.LowPage(), w.ref.HighPage()
 	for _, off := range probeOffs {
 		if off >= 0x147 && off <= 0x149 {
@@ -179,7 +212,7 @@ func (w *world) verifyAllPages(quick bool) {
 			stride = 61
 		}
 		for off := 0; off < nOff; off += stride {
-			if hi == 0 && off >= 0x147 && off <= 0x149 {
+			if hi == 0 && off >= 0x147 && off <= 0x149 && !w.cf.logo {
 				continue
 			}
 			if got, want := w.m.Mem.Read(uint16(0x4000+off)), w.expectByte(hi, off); got != want {
@@ -193,12 +226,15 @@ func (w *world) verifyAllPages(quick bool) {
 }
 
 func run(c *rig.Ctx) {
-	c.Require("configs", "single_writes", "mbc1_triples", "sequence_writes", "pages_reread", "remap_0_to_1_cases", "modulo_cases", "bystander_checks")
+	c.Require("configs", "single_writes", "mbc1_triples", "sequence_writes", "pages_reread", "remap_0_to_1_cases", "modulo_cases", "bystander_checks", "ram_accesses_before_rom_reads")
 	var cfgs []cfg
 	for _, cart := range []uint8{0x00, 0x01, 0x02, 0x03, 0x05, 0x06, 0x0f, 0x10, 0x11, 0x12, 0x13, 0x19, 0x1a, 0x1b, 0x1c, 0x1d, 0x1e} {
 		k, _ := ref.KindOf(cart)
 		for code := uint8(0); code <= ref.MaxROMCode(k); code++ {
-			cfgs = append(cfgs, cfg{cart, code})
+			cfgs = append(cfgs, cfg{cart, code, false})
+			if code >= 4 {
+				cfgs = append(cfgs, cfg{cart, code, true})
+			}
 		}
 	}
 	// largest images last within a shard keeps peak memory low
@@ -306,7 +342,7 @@ func run(c *rig.Ctx) {
 
 // newWorldQuiet is newWorld for configurations already known to load.
 func newWorldQuiet(c *rig.Ctx, cf cfg, ramCode uint8) *world {
-	m := rig.MustNew(image(cf.cart, cf.romCode, ramCode), rig.Opts{})
+	m := rig.MustNew(image(cf.cart, cf.romCode, ramCode, cf.logo), rig.Opts{})
 	return &world{c: c, cf: cf, ramCode: ramCode, m: m, ref: ref.NewMBC(cf.cart, cf.romCode, ramCode)}
 }
 
